@@ -327,7 +327,7 @@ def run(ctx: Ctx) -> None:
         ctx.case([cj["case"], v])
         nperm += len(o.get("perms", ()))
         if cj["case"]["fam"] not in seen_fam and cj["case"]["fam"] in ("bearer", "mtls", "jwt", "chain", "realchain") \
-                and o.get("k") in ("accept", "reject"):
+                and o.get("k") == "accept" and (cj["case"]["fam"] != "chain" or len(cj["case"]["ms"]) == 3):
             seen_fam.add(cj["case"]["fam"])
             ctx.sample({"abstract_case": cj["case"], "oracle": cj["exp"], "concrete": conc,
                         "observed": {k: x for k, x in o.items() if k != "perms"}})
